@@ -6,7 +6,7 @@ import ast
 
 from ..cfg import cfg_of
 from ..index import AnalysisError, function_stmts, walk_no_nested
-from ..util import (Expander, callee_last, calls_in, enclosing_stmt, kw, names_in, path_condition, show_condition, txt,
+from ..util import (ifexp_guards, same_module_helpers, Expander, callee_last, calls_in, enclosing_stmt, kw, names_in, path_condition, show_condition, txt,
                     in_subtree)
 
 EXPLANATION = (
@@ -23,6 +23,7 @@ EXPLANATION = (
     " R4 also covers the runner: CoreCheckResult.passed in run_check (both backends) is never decided from, or under a condition on, the failure cases built for the report. " 
     " R3 also covers polars: a null check output is decided before the verdict on every path (True under ignore_na, False otherwise), the failure cases are selected with the same decided output that gives the verdict, and pandas per-column preprocessing drops nulls of the checked column only (never row-wise from the whole table). " 
     "NOT decided: the metamorphic equalities over predicates and data."
+    ' R3 (pandas null outputs): in postprocess_field every path to the `.all()` verdict passes `fillna(False)` (a `hasnans`-guarded fill counts), so <NA> outputs of nullable dtypes fail under ignore_na=False as NaN does. R3 (null-aware paths): every value returned by a field-level preprocess function (the targets `preprocess` dispatches to for a Series or with the `key` of a column) is produced with ignore_na consulted - by a guard, a reaching definition under a guard, or a private helper that reads it - so the groupby branch drops the nulls of each group too; guards of conditional expressions are part of every path condition.'
 )
 LEVEL_RULE = "one obligation per constructor / backend function / option use site"
 FLOORS = {"R1": 22, "R2": 4, "R3": 5, "R4": 2, "R5": 4, "R6": 3, "R7": 1}
@@ -183,6 +184,7 @@ def _is_failure_case_helper(cls, f) -> bool:
     return True
 
 
+
 def r3_ignore_na(ctx):
     ix = ctx.ix
     pcb, lcb = ix.cls(PCB), ix.cls(LCB)
@@ -210,7 +212,7 @@ def r3_ignore_na(ctx):
                        "other column is null is never shown to the check (Check.gt(0) accepts a == -5 when b is NaN in that row)", f.loc(c))
             if is_drop:
                 cfg = cfg or cfg_of(f.node)
-                pc = path_condition(cfg, cfg.node_of(st).id, keep=keep)
+                pc = path_condition(cfg, cfg.node_of(st).id, keep=keep, extra=ifexp_guards(c, st))
                 ok = pc == (("self.check.ignore_na",), frozenset({(True,)}))
                 n_drop += 1
                 ctx.ob("R3", f, f"`{txt(c)[:50]}` only when ignore_na", ok,
@@ -221,7 +223,7 @@ def r3_ignore_na(ctx):
                     isinstance(x, ast.Call) and callee_last(x) in ("isna", "is_null", "isnull") for x in ast.walk(n.right)):
                 cfg = cfg or cfg_of(f.node)
                 st = enclosing_stmt(n)
-                pc = path_condition(cfg, cfg.node_of(st).id, keep=keep)
+                pc = path_condition(cfg, cfg.node_of(st).id, keep=keep, extra=ifexp_guards(n, st))
                 ok = len(pc[0]) == 1 and "ignore_na" in pc[0][0] and pc[1] == frozenset({(True,)})
                 ctx.ob("R3", f, f"`{txt(n)[:60]}` only when ignore_na", ok,
                        "null rows pass only under ignore_na" if ok else f"nulls are or-ed into the output under {show_condition(pc)}", f.loc(n))
@@ -293,6 +295,130 @@ def r3_polars_null_outputs_decided(ctx):
            "every path to the verdict passes a null-deciding step" if ok else
            f"a path (through {where or 'no test'}) reaches the verdict with null outputs undecided: `all()` skips them and the failure-case filter drops them, so "
            "Check.gt(0, ignore_na=False) accepts [1.0, None, 3.0] on polars while pandas rejects row 1", f.loc(f.node))
+
+
+def r3_pandas_null_outputs_decided(ctx):
+    """pandas counterpart of the polars rule: with ignore_na=False the nulls reach the check function, and on nullable
+    extension dtypes (Int64, boolean, string) a comparison answers <NA>.  `Series.all()` skips <NA>, so the field
+    postprocessing has to decide null outputs (fillna(False)) before aggregating - otherwise Check.gt(0, ignore_na=False)
+    accepts Int64 [1, <NA>, 3] while the same values as float64 (NaN > 0 is False) are rejected."""
+    ix = ctx.ix
+    pcb = ix.cls(PCB)
+    f = pcb.lookup("postprocess_field")
+    if f is None:
+        raise AnalysisError("PandasCheckBackend.postprocess_field missing")
+    ctx.touched(f)
+    cfg = cfg_of(f.node)
+    deciding, verdict = set(), set()
+    for st in function_stmts(f):
+        node = cfg.node_of(st)
+        if node is None:
+            continue
+        if isinstance(st, (ast.If, ast.While)):
+            continue
+        calls = list(calls_in(st))
+        if isinstance(st, ast.Assign) and any(callee_last(c) == "fillna" and c.args and isinstance(c.args[0], ast.Constant) and c.args[0].value is False for c in calls):
+            deciding.add(node.id)
+        if any(callee_last(c) == "all" for c in calls):
+            verdict.add(node.id)
+    # a fill guarded by `if <output>.hasnans:` decides exactly the outputs that need it
+    for n_ in cfg.nodes:
+        if n_.kind == "test" and isinstance(n_.ast, ast.expr) and any(isinstance(x, ast.Attribute) and x.attr in ("hasnans",) for x in ast.walk(n_.ast)):
+            body_fills = any(cfg.nodes[s_].id in deciding for s_, lab in cfg.succ[n_.id] if lab == "True")
+            if body_fills:
+                deciding.add(n_.id)
+    if not verdict:
+        raise AnalysisError("postprocess_field: verdict aggregation (.all()) not found")
+    path = cfg.must_pass(cfg.entry.id, verdict, deciding)
+    ok = path is None
+    ctx.ob("R3", f, "pandas: a null check output is decided (False) before the field verdict is aggregated", ok,
+           "every path to `.all()` passes fillna(False)" if ok else
+           "check_output.all() is reached with <NA> outputs undecided: Series.all() skips them, so Check.gt(0, ignore_na=False) accepts Int64 [1, <NA>, 3] "
+           "(the float64 twin [1.0, NaN, 3.0] is rejected, and so is the polars backend)", f.loc(f.node))
+
+
+def _mentions_ignore_na(node) -> bool:
+    return any(isinstance(x, ast.Attribute) and x.attr == "ignore_na" for x in ast.walk(node))
+
+
+def r3_every_field_path_null_aware(ctx):
+    """ignore_na=True promises that null elements are never shown to the check function.  `preprocess` dispatches the
+    field-level inputs (a Series, or a table together with the `key` of the checked column) to per-shape functions; every
+    value such a function returns has to be produced with `ignore_na` consulted - on the grouped branch too, where the
+    function receives a dict of groups.  Decided per return statement: it is guarded by a test that reads `ignore_na`, or
+    its value (through reaching definitions) was produced under such a test, or by a private helper next to it that
+    reads `ignore_na`."""
+    ix = ctx.ix
+    pcb = ix.cls(PCB)
+    pre = pcb.lookup("preprocess")
+    if pre is None:
+        raise AnalysisError("PandasCheckBackend.preprocess missing")
+    ctx.touched(pre)
+    cfg0 = cfg_of(pre.node)
+    targets = []
+    for c in calls_in(pre.node):
+        if not (isinstance(c.func, ast.Attribute) and isinstance(c.func.value, ast.Name) and c.func.value.id == "self"):
+            continue
+        st = enclosing_stmt(c)
+        node = cfg0.node_of(st)
+        if node is None:
+            continue
+        # field-level: dispatched for a Series (`is_field(check_obj)` holds), or handed the `key` of the checked column
+        pos = [txt(t) for t, pol in cfg0.guards(node.id) if pol]
+        field_level = any(t.startswith("is_field(") for t in pos) or any(isinstance(a, ast.Name) and a.id == "key" for a in list(c.args) + [k.value for k in c.keywords])
+        if field_level:
+            h = pcb.lookup(c.func.attr)
+            if h is not None and h not in targets:
+                targets.append(h)
+    if len(targets) < 2:
+        raise AnalysisError(f"preprocess: field-level dispatch targets not found ({[t.name for t in targets]})")
+    for f in targets:
+        ctx.touched(f)
+        helpers = {h.name: h for h in same_module_helpers(ix, f, depth=3)[1:]}
+        aware_helpers = {n for n, h in helpers.items() if any(_mentions_ignore_na(g.node) for g in same_module_helpers(ix, h, depth=2))}
+        cfg = cfg_of(f.node)
+        rd = cfg.reaching_defs()
+
+        def aware(nid, seen):
+            if nid in seen:
+                return False
+            seen.add(nid)
+            n_ = cfg.nodes[nid]
+            if any(_mentions_ignore_na(t) for t, _ in cfg.guards(nid)):
+                return True
+            a = n_.ast
+            if a is None:
+                return False
+            val = a.value if isinstance(a, (ast.Return, ast.Assign, ast.AnnAssign, ast.AugAssign)) else a
+            if val is None:
+                return False
+            if _mentions_ignore_na(val):
+                return True
+            for c in ast.walk(val):
+                if isinstance(c, ast.Call) and callee_last(c) in aware_helpers:
+                    return True
+            for nm in {x.id for x in ast.walk(val) if isinstance(x, ast.Name) and isinstance(x.ctx, ast.Load)} - set(f.params):
+                for d in rd.get(nid, {}).get(nm, ()):
+                    if aware(d, seen):
+                        return True
+            return False
+
+        n_ret = 0
+        for st in function_stmts(f):
+            if not isinstance(st, ast.Return) or st.value is None:
+                continue
+            node = cfg.node_of(st)
+            if node is None:
+                continue
+            n_ret += 1
+            ok = aware(node.id, set())
+            ctx.ob("R3", f, f"`{txt(st)[:60]}`: the field handed to the check function was produced with ignore_na consulted", ok,
+                   "ignore_na decides this path" if ok else
+                   f"`{txt(st)[:90]}` returns the checked field on a path that never reads ignore_na: with groupby set the groups keep their null elements, "
+                   "the function sees them (NaN > 0 is False) and Column(float, Check(lambda g: g['A'] > 0, groupby='g'), nullable=True) fails on "
+                   "[1.0, NaN] although ignore_na defaults to True", f.loc(st))
+        if not n_ret:
+            raise AnalysisError(f"{f.qual}: no return statement")
 
 
 def _parents(n):
@@ -453,6 +579,8 @@ def run(ctx):
     r2_element_wise(ctx)
     r3_ignore_na(ctx)
     r3_polars_null_outputs_decided(ctx)
+    r3_pandas_null_outputs_decided(ctx)
+    r3_every_field_path_null_aware(ctx)
     r4_n_failure_cases(ctx)
     r4_runner_verdict(ctx)
     r5_raise_warning(ctx)
